@@ -70,7 +70,7 @@ func newReport(mode, prop string, seed int64, tier string) *Report {
 	return &Report{Mode: mode, Property: prop, Seed: seed, Tier: tier, Dist: map[string]int{}}
 }
 
-func (r *Report) count(key string) { r.Dist[key]++ }
+func (r *Report) count(key string)         { r.Dist[key]++ }
 func (r *Report) countN(key string, n int) { r.Dist[key] += n }
 
 var driverPath = "/verif/lean/.lake/build/bin/driver"
